@@ -170,6 +170,9 @@ func c10stable(c *core.Ctx) {
 		run.ps.DefaultBuffer = r.Range(1, 3)
 	}
 	nsub := r.Range(0, 4)
+	if r.Chance(1, 12) {
+		nsub = r.Range(17, 140) // many subscribers (growth and shrink steps of the subscriber list)
+	}
 	stalledAsync := isAsync(variant) && !timeoutOn && r.Chance(1, 2)
 	subs := make([]*psSub, nsub)
 	for i := range subs {
@@ -200,6 +203,15 @@ func c10stable(c *core.Ctx) {
 	if r.Chance(1, 10) || stalledAsync && r.Bool() {
 		// big batches (slice variants publish them in one call)
 		npub, per = 1, r.Range(33, 200)
+	}
+	if nsub > 16 {
+		// many subscribers: few events (a timed-out pair costs up to the whole timeout in
+		// the Sync variants, one after the other)
+		npub, per = r.Range(1, 2), r.Range(1, 4)
+		if timeoutOn {
+			timeout = time.Duration(r.Range(200, 600)) * time.Microsecond
+			run.ps.PubTimeoutAfter = timeout
+		}
 	}
 	baseline := runtime.NumGoroutine()
 	type callRet struct {
@@ -340,17 +352,67 @@ func c10stable(c *core.Ctx) {
 		}
 	}
 	// Wait/Sync variants: the call has returned => every hand-off is finished. Close right away.
-	if err := run.ps.UnsubAll(); err != nil {
-		c.Violate("UnsubAll:error", fmt.Sprint(err), extra)
-		return
-	}
-	releaseAll()
-	for _, s := range subs {
-		select {
-		case <-s.done:
-		case <-time.After(30 * time.Second):
-			c.Violate("UnsubAll:channel-not-closed", "a subscriber's channel was not closed by UnsubAll (receiver still waiting after 30 s)", extra)
+	const extraEv = -5
+	extraRemaining := -1
+	removedBeforeExtra := map[int]bool{}
+	if individually := r.Bool(); individually && nsub > 0 {
+		// Half of the scenarios end with one Unsub call per subscriber, in random order
+		// (from many subscribers down to none): each call must close exactly its own
+		// channel and leave the others subscribed - which is put to the test by one more
+		// event published (PubWait) when half of them are gone.
+		releaseAll()
+		order := r.Perm(nsub)
+		for i, si := range order {
+			if i == nsub/2 {
+				extraRemaining = nsub - i
+				run.ps.PubWait(extraEv)
+			}
+			if extraRemaining < 0 {
+				removedBeforeExtra[si] = true
+			}
+			var err error
+			if p, pv := core.Catch(func() { err = run.ps.Unsub(subs[si].ch) }); p {
+				extra["unsub_order"] = order
+				c.Violate("Unsub:panic", fmt.Sprintf("Unsub of subscriber %d (call %d of %d, each channel once) panicked: %v", si, i+1, nsub, pv), extra)
+				return
+			}
+			if err != nil {
+				extra["unsub_order"] = order
+				c.Violate("Unsub:error", fmt.Sprintf("Unsub of subscriber %d (call %d of %d, each channel once) returned %v", si, i+1, nsub, err), extra)
+				return
+			}
+			select {
+			case <-subs[si].done:
+			case <-time.After(30 * time.Second):
+				c.Violate("Unsub:channel-not-closed", fmt.Sprintf("the channel of subscriber %d was not closed by its Unsub (receiver still waiting after 30 s)", si), extra)
+				return
+			}
+			for _, sj := range order[i+1:] {
+				if subs[sj].closed.Load() {
+					extra["unsub_order"] = order
+					c.Violate("Unsub:closed-another-channel", fmt.Sprintf("Unsub of subscriber %d (call %d of %d) also closed the channel of subscriber %d, which is still subscribed", si, i+1, nsub, sj), extra)
+					return
+				}
+			}
+		}
+		c.Count("stable_ended_by_individual_unsubs", 1)
+		if err := run.ps.UnsubAll(); err != nil {
+			c.Violate("UnsubAll:error", fmt.Sprint(err), extra)
 			return
+		}
+	} else {
+		if err := run.ps.UnsubAll(); err != nil {
+			c.Violate("UnsubAll:error", fmt.Sprint(err), extra)
+			return
+		}
+		releaseAll()
+		for _, s := range subs {
+			select {
+			case <-s.done:
+			case <-time.After(30 * time.Second):
+				c.Violate("UnsubAll:channel-not-closed", "a subscriber's channel was not closed by UnsubAll (receiver still waiting after 30 s)", extra)
+				return
+			}
 		}
 	}
 	c.Count("stable_scenarios", 1)
@@ -358,9 +420,25 @@ func c10stable(c *core.Ctx) {
 	c.Count("stable_event_subscriber_pairs", expected)
 	// per-event accounting
 	deliv := map[int]int{}
+	extraDelivered := 0
 	for si, s := range subs {
 		seen := map[int]bool{}
 		last := map[int]int{}
+		gotAll := s.got
+		s.got = s.got[:0:0]
+		nExtra := 0
+		for _, v := range gotAll {
+			if v == extraEv && extraRemaining >= 0 {
+				nExtra++
+				continue
+			}
+			s.got = append(s.got, v)
+		}
+		if nExtra > 1 || (nExtra == 1 && removedBeforeExtra[si]) {
+			c.Violate("Unsub:delivery-after-removal-or-duplicate", fmt.Sprintf("subscriber %d received the event published after half of the subscribers had been removed %d times (removed before it: %v)", si, nExtra, removedBeforeExtra[si]), extra)
+			return
+		}
+		extraDelivered += nExtra
 		for _, v := range s.got {
 			if v/1000 < 1 || v/1000 > npub || v%1000 >= per {
 				extra["received"] = s.got
@@ -398,6 +476,13 @@ func c10stable(c *core.Ctx) {
 	for _, t := range run.timeouts {
 		touts[t.ev]++
 	}
+	if extraRemaining >= 0 {
+		if extraDelivered+touts[extraEv] != extraRemaining || (!timeoutOn && extraDelivered != extraRemaining) {
+			c.Violate("Unsub:other-subscribers-affected", fmt.Sprintf("after %d of %d subscribers had been removed one by one, an event published with PubWait reached %d of the remaining %d (and %d timeouts were reported)", nsub-extraRemaining, nsub, extraDelivered, extraRemaining, touts[extraEv]), extra)
+			return
+		}
+		delete(touts, extraEv)
+	}
 	if !timeoutOn && len(run.timeouts) > 0 {
 		c.Violate(vname+":timeout-without-timeout", "OnPubTimeout was invoked although PubTimeoutAfter is not positive", extra)
 		return
@@ -425,6 +510,9 @@ func c10stable(c *core.Ctx) {
 			}
 		}
 		for _, t := range run.timeouts {
+			if t.ev == extraEv {
+				continue
+			}
 			if t.stamp > retOf[t.ev] {
 				c.Violate(vname+":timeout-after-return", fmt.Sprintf("OnPubTimeout(%d) was invoked after %s had returned", t.ev, vname), extra)
 				return
